@@ -107,6 +107,13 @@ type sim struct {
 		side        []bool
 	}
 	rules []dropRule
+	votes map[voteKey]int64
+}
+
+type voteKey struct {
+	p     int
+	round int64
+	typ   qbft.MsgType
 }
 
 // dropRule is a structured loss: messages of one type and round from some members to some members
@@ -129,7 +136,7 @@ func pick[T any](stream string, xs []T) T { return xs[verifrt.Intn(stream, len(x
 func body(c *kernel.Ctx) {
 	ctx, cancel := context.WithCancel(context.Background())
 	defer cancel()
-	s := &sim{c: c, ctx: ctx, proposed: map[int64]map[int64]bool{}, decided: map[int64]decision{}, ndecided: map[int64]int{}, crashAt: map[int][2]int{}}
+	s := &sim{c: c, ctx: ctx, proposed: map[int64]map[int64]bool{}, decided: map[int64]decision{}, ndecided: map[int64]int{}, crashAt: map[int][2]int{}, votes: map[voteKey]int64{}}
 
 	// ---- swarm configuration -------------------------------------------------------------
 	switch c.Mode {
@@ -519,6 +526,18 @@ func (s *sim) broadcast(p int, m msg) error {
 		}
 		s.proposed[m.val][m.round] = true
 	}
+	// An honest member votes at most once per round and phase: a second PREPARE or COMMIT for another
+	// value is honest equivocation, which voids the quorum-intersection argument agreement rests on
+	// (two conflicting prepared certificates for one round can then exist and be re-proposed).
+	if m.typ == qbft.MsgPrepare || m.typ == qbft.MsgCommit {
+		k := voteKey{p, m.round, m.typ}
+		if prev, ok := s.votes[k]; ok && prev != m.val {
+			s.mu.Unlock()
+			s.c.Violate("C02", "honest-equivocation", "honest-member-voted-for-two-values-in-one-round", "member %d broadcast %s for value %d and for value %d in round %d", p, m.typ, prev, m.val, m.round)
+			s.mu.Lock()
+		}
+		s.votes[k] = m.val
+	}
 	b := s.bcasts[p]
 	s.bcasts[p]++
 	ca, hasCa := s.crashAt[p]
@@ -848,7 +867,7 @@ func (s *sim) adversary(alphabet []int64) {
 		if verifrt.Intn("a", 8) == 7 {
 			v1 = 0 // the empty value
 		}
-		switch verifrt.Intn("a", 12) {
+		switch verifrt.Intn("a", 13) {
 		case 0: // silence
 		case 1: // equivocating leader (current or future round, forged round-change justification)
 			for r := int64(1); r <= maxR+2; r++ {
@@ -977,6 +996,45 @@ func (s *sim) adversary(alphabet []int64) {
 				}
 			}
 			verifrt.Probe("adv:push-rounds")
+		case 12: // double proposal for a round the members have not reached yet, then a one-sided commit:
+			// every member that jumps to the round on the first proposal must not vote again on the second
+			for r := maxR; r <= maxR+2; r++ {
+				if !s.byz[s.leader(r)] || r < 2 {
+					continue
+				}
+				j := s.qrc(r, true, false)
+				if len(j) < s.q {
+					continue
+				}
+				w1, w2 := alphabet[verifrt.Intn("a", len(alphabet))], alphabet[verifrt.Intn("a", len(alphabet))]
+				if w1 == w2 {
+					w2 = alphabet[(verifrt.Intn("a", len(alphabet)-1)+1+int(w1-alphabet[0]))%len(alphabet)]
+				}
+				p1 := s.forged(qbft.MsgPrePrepare, s.leader(r), r, w1, 0, 0, j)
+				p2 := s.forged(qbft.MsgPrePrepare, s.leader(r), r, w2, 0, 0, j)
+				for _, to := range honest {
+					if verifrt.Intn("a", 2) == 0 {
+						s.advSend(to, p1)
+						s.advSend(to, p2)
+					} else {
+						s.advSend(to, p2)
+						s.advSend(to, p1)
+					}
+				}
+				verifrt.Sleep(time.Duration(100+verifrt.Intn("a", 600)) * time.Millisecond)
+				target := pick("a", honest)
+				for _, bb := range byz {
+					for _, w := range []int64{w1, w2} {
+						for _, to := range honest {
+							s.advSend(to, s.forged(qbft.MsgPrepare, bb, r, w, 0, 0, nil))
+						}
+					}
+					s.advSend(target, s.forged(qbft.MsgCommit, bb, r, w1, 0, 0, nil))
+					s.advSend(target, s.forged(qbft.MsgCommit, bb, r, w2, 0, 0, nil))
+				}
+				verifrt.Probe("adv:double-proposal")
+				break
+			}
 		case 11: // stale certificate: a Byzantine leader re-proposes an older prepared value W although a
 			// ROUND-CHANGE with a higher prepared round exists, listing its own stale claim first
 			type pk struct{ r, v int64 }
